@@ -290,6 +290,17 @@ def run_case(case):
             res["report"] = text
             res["snap"] = snapshot()
             try:
+                # translation tie: the objects the frontend received + what its methods return on them (harness/c13_tie.py)
+                import zlib
+                import c13_tie
+                dg = _captured["dg"]
+                h = zlib.crc32(case["name"].encode())
+                res["tie"] = c13_tie.snapshot(_captured["frontend"], _captured["kernel"], dg.get_critical_path(),
+                                              dg.get_loopcarried_dependencies(), bool(case.get("ignore_unknown")),
+                                              [bool(h & 1), bool(h & 2), bool(h & 4)])
+            except Exception as e:  # noqa
+                res["tie"] = {"error": "%s: %s" % (type(e).__name__, e)}
+            try:
                 res["tok"] = tokenise(text)
             except Layout as e:
                 res["layout_error"] = str(e)
